@@ -800,7 +800,7 @@ def rule_M1(prog, fixture=False):
                            "is keyed by everything it was computed from: every argument (scalar, element count or contents of a "
                            "container) the stored value may depend on is mentioned by a condition that decides whether it is "
                            "computed again - otherwise a later call with another argument is answered with the earlier result")
-    from .flow import ACCESS_METHODS, OUTPUT_ITERATOR_RESULT
+    from .flow import ACCESS_METHODS, OUTPUT_ITERATOR_RESULT, output_arg
     nfun = 0
     for f in sorted(prog.functions.values(), key=lambda g: (g.file, g.line)):
         if not f.blocks or f.entry is None:
@@ -885,7 +885,7 @@ def rule_M1(prog, fixture=False):
                     else:
                         cands = [a for i, a in enumerate(args) if (pm[i] if i < len(pm) else "val") in ("ref", "ptr")]
                         if wq in OUTPUT_ITERATOR_RESULT and args:
-                            cands.append(args[-1] if OUTPUT_ITERATOR_RESULT[wq] == "last" else args[0])
+                            cands.append(output_arg(wq, args))
                         for a in cands:
                             if ("global", qn) in flow.root(a):
                                 tgt, vals = a, [b for b in args if b.id != a.id]
@@ -1343,7 +1343,7 @@ def _m2_assignments(f, field):
 
 def _m2_source_writes(prog, m, srcs):
     """[(block, index, member)] every write - whole, element-wise, through a mutating call or an output argument - of one of the members"""
-    from .flow import ACCESS_METHODS, OUTPUT_ITERATOR_RESULT
+    from .flow import ACCESS_METHODS, OUTPUT_ITERATOR_RESULT, output_arg
     flow = Flow(m, prog, control=False)
     out = []
     for n in m.walk():
@@ -1366,7 +1366,7 @@ def _m2_source_writes(prog, m, srcs):
                 if (pm[i] if i < len(pm) else "val") in ("ref", "ptr") and not (a.type or "").startswith("const "):
                     tgts.append(a)
             if wq in OUTPUT_ITERATOR_RESULT and args:
-                tgts.append(args[-1] if OUTPUT_ITERATOR_RESULT[wq] == "last" else args[0])
+                tgts.append(output_arg(wq, args))
         for t in tgts:
             for r in flow.root(t):
                 if r[0] == "this" and r[1] in srcs:
